@@ -52,7 +52,7 @@ var c15Kinds = []string{
 
 func c15Gen(rt *rapid.T) c15Plan {
 	nt := rapid.SampledFrom([][2]int{{2, 2}, {3, 2}, {4, 3}}).Draw(rt, "nt")
-	p := c15Plan{Trace: rapid.SampledFrom([]string{"honest", "twobatches"}).Draw(rt, "trace"), N: nt[0], T: nt[1], Op: rapid.IntRange(0, 100).Draw(rt, "op")}
+	p := c15Plan{Trace: rapid.SampledFrom([]string{"honest", "twobatches", "reinit"}).Draw(rt, "trace"), N: nt[0], T: nt[1], Op: rapid.IntRange(0, 100).Draw(rt, "op")}
 	k := rapid.IntRange(2, 12).Draw(rt, "nmuts")
 	for i := 0; i < k; i++ {
 		p.Muts = append(p.Muts, c15Mut{Kind: rapid.SampledFrom(c15Kinds).Draw(rt, "kind"), A: rapid.IntRange(0, 100000).Draw(rt, "a")})
@@ -97,7 +97,14 @@ func c15Expect(sub types.Operation, pending map[string]*types.Operation) bool {
 }
 
 func c15Run(t *testing.T, st *vstat.Stats, p c15Plan) (v *viol) {
-	tr, err := getTrace(t, p.Trace, p.N, p.T)
+	var tr *ceremonyTrace
+	var err error
+	if p.Trace == "reinit" {
+		// the one operation of a re-initialisation: answered with "processed", no board messages, the polynomial in ExtraData
+		tr, err = reinitTrace(t, p.N, p.T, false)
+	} else {
+		tr, err = getTrace(t, p.Trace, p.N, p.T)
+	}
 	if err != nil {
 		return violf("harness", "trace: %v", err)
 	}
@@ -194,6 +201,11 @@ func c15Run(t *testing.T, st *vstat.Stats, p c15Plan) (v *viol) {
 			sub.Payload = append([]byte(nil), genuine.Payload...)
 			sub.ResultMsgs = append([]storage.Message(nil), genuine.ResultMsgs...)
 			ids, _, _ := pendingIDs(nd)
+			if string(genuine.Type) == "reinit_dkg" && (mu.Kind == "resultmsgs-many" || mu.Kind == "round-changed") {
+				// the answer to a re-initialisation carries no board messages (whatever the file lists is not posted), and it
+				// names the round whose polynomial it restores: the contract's "posted messages" clause does not apply to it
+				continue
+			}
 			switch mu.Kind {
 			case "id-unknown":
 				sub.ID = fmt.Sprintf("%032x", mu.A)
